@@ -292,21 +292,24 @@ theorem msg_doc_fmt (fuel : Nat) (ind : List Byte) : ∀ (cs : List Str) (f : Na
     simp [cmtText]
 
 theorem msgFmt_ok (fuel : Nat) (ind : List Byte) : ∀ (gs : List CMsgField) (f : Nat) (acc : List Byte)
-    (r : List Lexeme) (t : TR), msgFieldsLen gs ≤ f → msgFieldsLen gs ≤ fuel → Src (toks (msgFieldsLex ind gs r)) t →
+    (r : List Lexeme) (t : TR), (∀ g ∈ gs, g.trail = none) → msgFieldsLen gs ≤ f → msgFieldsLen gs ≤ fuel →
+    Src (toks (msgFieldsLex ind gs r)) t →
     ∃ t', formatMessage.loop fuel ind f t acc = some (acc ++ msgFieldsText ind gs, t') ∧
       Lex (toks (⟨[], tNl⟩ :: r)) t'
-  | [], f, acc, r, t, hf, _, h => by
+  | [], f, acc, r, t, _, hf, _, h => by
     obtain ⟨f, rfl⟩ : ∃ g, f = g + 1 := ⟨f - 1, by simp [msgFieldsLen] at hf; omega⟩
     obtain ⟨t1, hn, htok, hl⟩ := Src.step (tok := tClose) (l := toks (⟨[], tNl⟩ :: r)) h
     refine ⟨t1, ?_, hl⟩
     rw [formatMessage.loop]
     simp only [hn, htok, msgFieldsText]
     simp
-  | g :: gs, f, acc, r, t, hf, hfu, h => by
+  | g :: gs, f, acc, r, t, htr, hf, hfu, h => by
+    have htr0 : g.trail = none := htr g (List.mem_cons_self)
+    have htr' : ∀ x ∈ gs, x.trail = none := fun x hx => htr x (List.mem_cons_of_mem _ hx)
     have hty : tyFuel g.ty ≤ fuel := by
       have := tyFuel_le g.ty
       simp only [msgFieldsLen, msgFieldLen] at hfu; omega
-    simp only [msgFieldsLex, msgFieldLex] at h
+    simp only [msgFieldsLex, msgFieldLex, htr0, trailLex] at h
     -- the field line itself: two iterations
     have hfield : ∀ (f : Nat) (acc : List Byte) (t : TR),
         Src (toks (⟨ind, tNum g.idx⟩ :: ⟨[32], tArrow⟩ ::
@@ -341,11 +344,11 @@ theorem msgFmt_ok (fuel : Nat) (ind : List Byte) : ∀ (gs : List CMsgField) (f 
       simp only [depLex] at hsrcz
       obtain ⟨f, rfl⟩ : ∃ k, f = k + 2 := ⟨f - 2, by simp only [msgFieldsLen, msgFieldLen] at hf; omega⟩
       obtain ⟨t1, hl1, he1⟩ := hfield f (acc ++ cmtText ind g.doc) tz hsrcz
-      obtain ⟨t', h2, hl2⟩ := msgFmt_ok fuel ind gs f _ r t1
+      obtain ⟨t', h2, hl2⟩ := msgFmt_ok fuel ind gs f _ r t1 htr'
         (by simp only [msgFieldsLen, msgFieldLen] at hf; omega) (by simp only [msgFieldsLen] at hfu; omega) hl1.src
       refine ⟨t', ?_, hl2⟩
       rw [he1, h2]
-      simp [msgFieldsText, hd, depText]
+      simp [msgFieldsText, hd, depText, htr0, trailText]
     | some m =>
       rw [hd] at hsrcz
       simp only [depLex] at hsrcz
@@ -354,7 +357,7 @@ theorem msgFmt_ok (fuel : Nat) (ind : List Byte) : ∀ (gs : List CMsgField) (f 
       obtain ⟨t1, h1, hl1⟩ := fmtAttr_dep ind m htok0 hl0.src
       obtain ⟨t2, hn2, htok2, hl2⟩ := hl1.src.step
       obtain ⟨t3, hl3, he3⟩ := hfield f (acc ++ cmtText ind g.doc ++ depText ind (some m)) t2 hl2.src
-      obtain ⟨t', h4, hl4⟩ := msgFmt_ok fuel ind gs f _ r t3
+      obtain ⟨t', h4, hl4⟩ := msgFmt_ok fuel ind gs f _ r t3 htr'
         (by simp only [msgFieldsLen, msgFieldLen, hd, depLen] at hf; omega) (by simp only [msgFieldsLen] at hfu; omega)
         hl3.src
       refine ⟨t', ?_, hl4⟩
@@ -365,11 +368,11 @@ theorem msgFmt_ok (fuel : Nat) (ind : List Byte) : ∀ (gs : List CMsgField) (f 
       rw [show f + 3 = (f + 2) + 1 from rfl, formatMessage.loop]
       simp only [hn2, hk2]
       rw [he3, h4]
-      simp [msgFieldsText, hd]
+      simp [msgFieldsText, hd, htr0, trailText]
 
 /-- formatMessage (the `message` keyword has just been read) -/
 theorem formatMessage_ok (fuel : Nat) (ind : List Byte) (name : Str) (gs : List CMsgField)
-    (hfu : msgFieldsLen gs + 1 ≤ fuel) (r : List Lexeme) (t : TR) (htok : t.nextTok = ⟨.kMessage, kwMessage⟩)
+    (htr : ∀ g ∈ gs, g.trail = none) (hfu : msgFieldsLen gs + 1 ≤ fuel) (r : List Lexeme) (t : TR) (htok : t.nextTok = ⟨.kMessage, kwMessage⟩)
     (h : Src (tId name :: tOpen :: tNl :: toks (msgFieldsLex ind gs r)) t) :
     ∃ t', formatMessage fuel t ind = some (kwMessage ++ [32] ++ name ++ [32, 123, 10] ++ msgFieldsText ind gs, t') ∧
       Lex (toks (⟨[], tNl⟩ :: r)) t' := by
@@ -378,7 +381,7 @@ theorem formatMessage_ok (fuel : Nat) (ind : List Byte) (name : Str) (gs : List 
   obtain ⟨t2, hn2, htok2, hl2⟩ := hsrc1.step
   have hk2 : t2.nextTok.kind = .newline := by rw [htok2]
   obtain ⟨t', h3, hl3⟩ := msgFmt_ok (fuel + 1) ind gs fuel (kwMessage ++ [32] ++ name ++ [32, 123, 10]) r t2
-    (by omega) (by omega) hl2.src
+    htr (by omega) (by omega) hl2.src
   refine ⟨t', ?_, hl3⟩
   simp only [List.length_cons, List.length_nil, List.foldl_cons, List.foldl_nil] at h1
   simp only [formatMessage, htok, h1]
@@ -390,24 +393,28 @@ theorem formatMessage_ok (fuel : Nat) (ind : List Byte) (name : Str) (gs : List 
 
 /-! ### enums -/
 
-theorem optValue_ok (lit : Str) (f : Nat) (acc : List Byte) {l : List Token} {t : TR}
-    (h : Src (tEq :: tNum lit :: tSemi :: l) t) :
-    ∃ t', formatEnum.optValue (f + 3) t .ident acc = (acc ++ [32, 61, 32] ++ lit, t') ∧ Lex l t' := by
-  obtain ⟨t1, hn1, htok1, hl1⟩ := h.step
-  obtain ⟨t2, hn2, htok2, hl2⟩ := hl1.src.step
-  obtain ⟨t3, hn3, htok3, hl3⟩ := hl2.src.step
-  refine ⟨t3, ?_, hl3⟩
-  have e1 : (TK.equals == TK.semicolon) = false := by decide
-  have e2 : (TK.ident != TK.openParen && TK.equals != TK.closeParen) = true := by decide
-  have e3 : (TK.intLit == TK.semicolon) = false := by decide
-  have e4 : (TK.equals != TK.openParen && TK.intLit != TK.closeParen) = true := by decide
-  rw [show f + 3 = (f + 2) + 1 from rfl, formatEnum.optValue]
-  simp only [hn1, htok1, e1, e2, Bool.false_eq_true, if_false, if_true]
-  rw [show f + 2 = (f + 1) + 1 from rfl, formatEnum.optValue]
-  simp only [hn2, htok2, e3, e4, Bool.false_eq_true, if_false, if_true]
-  rw [formatEnum.optValue]
-  simp only [hn3, htok3, beq_self_eq_true, if_true]
-  simp
+/-- the value loop of `formatEnum` over tokens that are not semicolons: one blank before every token except
+    directly after `(` and directly before `)` -/
+theorem optValue_toks : ∀ (ts : List Token), (∀ tk ∈ ts, (tk.kind == TK.semicolon) = false) →
+    ∀ (prev : TK) (acc : List Byte) (f : Nat) (l : List Token) (t : TR), ts.length < f → Src (ts ++ tSemi :: l) t →
+    ∃ t', formatEnum.optValue f t prev acc = (acc ++ spText prev ts, t') ∧ Lex l t'
+  | [], _, prev, acc, f, l, t, hf, h => by
+    obtain ⟨f, rfl⟩ : ∃ g, f = g + 1 := ⟨f - 1, by simp at hf; omega⟩
+    obtain ⟨t1, hn, htok, hl⟩ := Src.step (tok := tSemi) h
+    refine ⟨t1, ?_, hl⟩
+    rw [formatEnum.optValue]
+    simp only [hn, htok, beq_self_eq_true, if_true, spText, List.append_nil]
+  | tk :: ts, hts, prev, acc, f, l, t, hf, h => by
+    obtain ⟨f, rfl⟩ : ∃ g, f = g + 1 := ⟨f - 1, by simp at hf; omega⟩
+    obtain ⟨t1, hn, htok, hl⟩ := Src.step (tok := tk) (l := ts ++ tSemi :: l) h
+    obtain ⟨t', h2, hl2⟩ := optValue_toks ts (fun x hx => hts x (List.mem_cons_of_mem _ hx)) tk.kind
+      (acc ++ (if prev != .openParen && tk.kind != .closeParen then [32] else []) ++ tk.concrete) f l t1
+      (by simp at hf; omega) hl.src
+    refine ⟨t', ?_, hl2⟩
+    have hk : (tk.kind == TK.semicolon) = false := hts tk (List.mem_cons_self)
+    rw [formatEnum.optValue]
+    simp only [hn, htok, hk, Bool.false_eq_true, if_false, h2, spText]
+    simp
 
 /-- `// doc` lines in an enum body: one iteration each -/
 theorem enum_doc_fmt (fuel : Nat) : ∀ (cs : List Str) (f : Nat) (acc : List Byte) (r : List Lexeme)
@@ -425,25 +432,42 @@ theorem enum_doc_fmt (fuel : Nat) : ∀ (cs : List Str) (f : Nat) (acc : List By
     simp only [hn, hk1, htok, he]
     simp [cmtText]
 
+theorem toks_spLex : ∀ (ts : List Token) (prev : TK) (r' : List Lexeme), toks (spLex prev ts r') = ts ++ toks r'
+  | [], _, _ => rfl
+  | tk :: ts, prev, r' => by simp [spLex, toks_spLex ts]
+
 theorem enumFmt_ok (fuel : Nat) : ∀ (os : List CEnumOpt) (f : Nat) (acc : List Byte)
-    (r : List Lexeme) (t : TR), enumOptsLen os ≤ f → Src (toks (enumOptsLex os r)) t →
-    ∃ t', formatEnum.loop (fuel + 3) f t acc = some (acc ++ enumOptsText os, t') ∧ Lex (toks (⟨[], tNl⟩ :: r)) t'
-  | [], f, acc, r, t, hf, h => by
+    (r : List Lexeme) (t : TR), enumOptsLen os ≤ f → enumOptsLen os ≤ fuel → Src (toks (enumOptsLex os r)) t →
+    ∃ t', formatEnum.loop fuel f t acc = some (acc ++ enumOptsText os, t') ∧ Lex (toks (⟨[], tNl⟩ :: r)) t'
+  | [], f, acc, r, t, hf, _, h => by
     obtain ⟨f, rfl⟩ : ∃ g, f = g + 1 := ⟨f - 1, by simp [enumOptsLen] at hf; omega⟩
     obtain ⟨t1, hn, htok, hl⟩ := Src.step (tok := tClose) (l := toks (⟨[], tNl⟩ :: r)) h
     refine ⟨t1, ?_, hl⟩
     rw [formatEnum.loop]
     simp only [hn, htok, enumOptsText]
     simp
-  | o :: os, f, acc, r, t, hf, h => by
+  | o :: os, f, acc, r, t, hf, hfu, h => by
     simp only [enumOptsLex, enumOptLex] at h
     have hopt : ∀ (f : Nat) (acc : List Byte) (t : TR),
-        Src (toks (⟨[9], tId o.name⟩ :: ⟨[32], tEq⟩ :: ⟨[32], tNum o.lit⟩ :: ⟨[], tSemi⟩ :: ⟨[], tNl⟩ :: enumOptsLex os r)) t →
-        ∃ t', Lex (toks (enumOptsLex os r)) t' ∧ formatEnum.loop (fuel + 3) (f + 2) t acc =
-          formatEnum.loop (fuel + 3) f t' (acc ++ [9] ++ o.name ++ [32, 61, 32] ++ o.lit ++ [59, 10]) := by
+        Src (toks (⟨[9], tId o.name⟩ :: spLex .ident (tEq :: o.val.map ETok.tok)
+          (⟨[], tSemi⟩ :: ⟨[], tNl⟩ :: enumOptsLex os r))) t →
+        ∃ t', Lex (toks (enumOptsLex os r)) t' ∧ formatEnum.loop fuel (f + 2) t acc =
+          formatEnum.loop fuel f t'
+            (acc ++ [9] ++ o.name ++ spText .ident (tEq :: o.val.map ETok.tok) ++ [59, 10]) := by
       intro f acc t h
       obtain ⟨t1, hn1, htok1, hl1⟩ := Src.step (tok := tId o.name) h
-      obtain ⟨t2, h2, hl2⟩ := optValue_ok o.lit fuel ([9] ++ o.name) hl1.src
+      have hl1' : Lex ((tEq :: o.val.map ETok.tok) ++ tSemi :: tNl :: toks (enumOptsLex os r)) t1 := by
+        have := hl1
+        change Lex (toks (spLex .ident (tEq :: o.val.map ETok.tok) (⟨[], tSemi⟩ :: ⟨[], tNl⟩ :: enumOptsLex os r))) t1
+          at this
+        rw [toks_spLex] at this
+        simpa using this
+      obtain ⟨t2, h2, hl2⟩ := optValue_toks (tEq :: o.val.map ETok.tok)
+        (by intro tk htk
+            rcases List.mem_cons.1 htk with rfl | htk
+            · rfl
+            · obtain ⟨e, _, rfl⟩ := List.mem_map.1 htk; exact etok_not_semi e)
+        .ident ([9] ++ o.name) fuel _ t1 (by simp only [enumOptsLen, enumOptLen] at hfu; simp; omega) hl1'.src
       obtain ⟨t3, hn3, htok3, hl3⟩ := hl2.src.step
       have hk1 : t1.nextTok.kind = .ident := by rw [htok1]
       have hk3 : t3.nextTok.kind = .newline := by rw [htok3]
@@ -455,7 +479,7 @@ theorem enumFmt_ok (fuel : Nat) : ∀ (os : List CEnumOpt) (f : Nat) (acc : List
       simp only [hn3, hk3, hsq]
       simp
     obtain ⟨f, rfl⟩ : ∃ k, f = k + o.doc.length := ⟨f - o.doc.length, by simp only [enumOptsLen, enumOptLen] at hf; omega⟩
-    obtain ⟨tz, hsrcz, hez⟩ := enum_doc_fmt (fuel + 3) o.doc f acc _ t h
+    obtain ⟨tz, hsrcz, hez⟩ := enum_doc_fmt fuel o.doc f acc _ t h
     rw [hez]
     cases hd : o.dep with
     | none =>
@@ -463,7 +487,8 @@ theorem enumFmt_ok (fuel : Nat) : ∀ (os : List CEnumOpt) (f : Nat) (acc : List
       simp only [depLex] at hsrcz
       obtain ⟨f, rfl⟩ : ∃ k, f = k + 2 := ⟨f - 2, by simp only [enumOptsLen, enumOptLen] at hf; omega⟩
       obtain ⟨t1, hl1, he1⟩ := hopt f (acc ++ cmtText [9] o.doc) tz hsrcz
-      obtain ⟨t', h2, hl2⟩ := enumFmt_ok fuel os f _ r t1 (by simp only [enumOptsLen, enumOptLen] at hf; omega) hl1.src
+      obtain ⟨t', h2, hl2⟩ := enumFmt_ok fuel os f _ r t1 (by simp only [enumOptsLen, enumOptLen] at hf; omega)
+        (by simp only [enumOptsLen] at hfu; omega) hl1.src
       refine ⟨t', ?_, hl2⟩
       rw [he1, h2]
       simp [enumOptsText, hd, depText]
@@ -476,7 +501,7 @@ theorem enumFmt_ok (fuel : Nat) : ∀ (os : List CEnumOpt) (f : Nat) (acc : List
       obtain ⟨t2, hn2, htok2, hl2⟩ := hl1.src.step
       obtain ⟨t3, hl3, he3⟩ := hopt f (acc ++ cmtText [9] o.doc ++ depText [9] (some m)) t2 hl2.src
       obtain ⟨t', h4, hl4⟩ := enumFmt_ok fuel os f _ r t3
-        (by simp only [enumOptsLen, enumOptLen, hd, depLen] at hf; omega) hl3.src
+        (by simp only [enumOptsLen, enumOptLen, hd, depLen] at hf; omega) (by simp only [enumOptsLen] at hfu; omega) hl3.src
       refine ⟨t', ?_, hl4⟩
       have hk0 : t0.nextTok.kind = .openSquare := by rw [htok0]
       have hk2 : t2.nextTok.kind = .newline := by rw [htok2]
@@ -524,14 +549,14 @@ theorem formatEnum_ok (fuel : Nat) (name : Str) (base : Option Str) (os : List C
   obtain ⟨t1, hl1, hhd⟩ := hhead
   obtain ⟨t2, hn2, htok2, hl2⟩ := hl1.src.step
   have hk2 : t2.nextTok.kind = .newline := by rw [htok2]
-  obtain ⟨t', h3, hl3⟩ := enumFmt_ok (fuel + 1) os (fuel + 3) (kwEnum ++ [32] ++ name ++ baseText base ++ [32, 123] ++ [10]) r t2
-    (by omega) hl2.src
+  obtain ⟨t', h3, hl3⟩ := enumFmt_ok (fuel + 4) os (fuel + 3) (kwEnum ++ [32] ++ name ++ baseText base ++ [32, 123] ++ [10]) r t2
+    (by omega) (by omega) hl2.src
   refine ⟨t', ?_, hl3⟩
   simp only [formatEnum]
   rw [hhd]
   rw [show fuel + 4 = (fuel + 3) + 1 from rfl, formatEnum.loop]
   simp only [hn2, hk2]
-  rw [show fuel + 3 + 1 = fuel + 1 + 3 by omega, h3]
+  rw [h3]
   simp
 
 /-! ### unions -/
@@ -553,16 +578,20 @@ theorem union_doc_fmt (fuel : Nat) : ∀ (cs : List Str) (f : Nat) (acc : List B
     simp [cmtText]
 
 theorem membersFmt_ok (fuel : Nat) : ∀ (ms : List CUMember) (f : Nat) (acc : List Byte)
-    (r : List Lexeme) (t : TR), membersLen ms ≤ f → membersLen ms + 1 ≤ fuel → Src (toks (membersLex ms r)) t →
+    (r : List Lexeme) (t : TR),
+    (∀ m ∈ ms, (match m with | .message _ _ _ _ fields => ∀ g ∈ fields, g.trail = none | _ => True)) →
+    membersLen ms ≤ f → membersLen ms + 1 ≤ fuel → Src (toks (membersLex ms r)) t →
     ∃ t', formatUnion.loop fuel [9] f t acc = some (acc ++ membersText ms, t') ∧ Lex (toks (⟨[], tNl⟩ :: r)) t'
-  | [], f, acc, r, t, hf, _, h => by
+  | [], f, acc, r, t, _, hf, _, h => by
     obtain ⟨f, rfl⟩ : ∃ g, f = g + 1 := ⟨f - 1, by simp [membersLen] at hf; omega⟩
     obtain ⟨t1, hn, htok, hl⟩ := Src.step (tok := tClose) (l := toks (⟨[], tNl⟩ :: r)) h
     refine ⟨t1, ?_, hl⟩
     rw [formatUnion.loop]
     simp only [hn, htok, membersText]
     simp
-  | m :: ms, f, acc, r, t, hf, hfu, h => by
+  | m :: ms, f, acc, r, t, htr, hf, hfu, h => by
+    have htr0 := htr m (List.mem_cons_self)
+    have htr' := fun x hx => htr x (List.mem_cons_of_mem _ hx)
     have hml := memberLen_ge m
     simp only [membersLex, memberLex_eq] at h
     -- the member itself and the line break after its `}`: two iterations
@@ -601,7 +630,7 @@ theorem membersFmt_ok (fuel : Nat) : ∀ (ms : List CUMember) (f : Nat) (acc : L
         obtain ⟨t1, hn1, htok1, hl1⟩ := Src.step (tok := tNum idx) h
         obtain ⟨t2, h2, hl2, _⟩ := nextConc_ok (tok := tArrow) hl1.src
         obtain ⟨t3, hn3, htok3, hl3⟩ := Src.step (tok := ⟨.kMessage, kwMessage⟩) hl2.src
-        obtain ⟨t4, h4, hl4⟩ := formatMessage_ok fuel [9, 9] name gs
+        obtain ⟨t4, h4, hl4⟩ := formatMessage_ok fuel [9, 9] name gs htr0
           (by simp only [membersLen, memberLen] at hfu; omega) _ t3 htok3 hl3.src
         obtain ⟨t5, hn5, htok5, hl5⟩ := hl4.src.step
         have hk1 : t1.nextTok.kind = .intLit := by rw [htok1]
@@ -625,7 +654,7 @@ theorem membersFmt_ok (fuel : Nat) : ∀ (ms : List CUMember) (f : Nat) (acc : L
       simp only [depLex] at hsrcz
       obtain ⟨f, rfl⟩ : ∃ k, f = k + 2 := ⟨f - 2, by simp only [membersLen] at hf; omega⟩
       obtain ⟨t1, hl1, he1⟩ := hbody f (acc ++ cmtText [9] m.doc) tz hsrcz
-      obtain ⟨t', h2, hl2⟩ := membersFmt_ok fuel ms f _ r t1 (by simp only [membersLen] at hf; omega)
+      obtain ⟨t', h2, hl2⟩ := membersFmt_ok fuel ms f _ r t1 htr' (by simp only [membersLen] at hf; omega)
         (by simp only [membersLen] at hfu; omega) hl1.src
       refine ⟨t', ?_, hl2⟩
       rw [he1, h2]
@@ -639,7 +668,7 @@ theorem membersFmt_ok (fuel : Nat) : ∀ (ms : List CUMember) (f : Nat) (acc : L
       obtain ⟨t1, h1, hl1⟩ := fmtAttr_dep [9] d htok0 hl0.src
       obtain ⟨t2, hn2, htok2, hl2⟩ := hl1.src.step
       obtain ⟨t3, hl3, he3⟩ := hbody f (acc ++ cmtText [9] m.doc ++ depText [9] (some d)) t2 hl2.src
-      obtain ⟨t', h4, hl4⟩ := membersFmt_ok fuel ms f _ r t3 (by simp only [membersLen] at hf; omega)
+      obtain ⟨t', h4, hl4⟩ := membersFmt_ok fuel ms f _ r t3 htr' (by simp only [membersLen] at hf; omega)
         (by simp only [membersLen] at hfu; omega) hl3.src
       refine ⟨t', ?_, hl4⟩
       have hk0 : t0.nextTok.kind = .openSquare := by rw [htok0]
@@ -653,6 +682,7 @@ theorem membersFmt_ok (fuel : Nat) : ∀ (ms : List CUMember) (f : Nat) (acc : L
 
 /-- formatUnion (the `union` keyword has just been read) -/
 theorem formatUnion_ok (fuel : Nat) (name : Str) (ms : List CUMember)
+    (htr : ∀ m ∈ ms, (match m with | .message _ _ _ _ fields => ∀ g ∈ fields, g.trail = none | _ => True))
     (hfu : membersLen ms + 2 ≤ fuel) (r : List Lexeme) (t : TR) (htok : t.nextTok = ⟨.kUnion, kwUnion⟩)
     (h : Src (tId name :: tOpen :: tNl :: toks (membersLex ms r)) t) :
     ∃ t', formatUnion fuel t [9] = some (kwUnion ++ [32] ++ name ++ [32, 123, 10] ++ membersText ms, t') ∧
@@ -662,7 +692,7 @@ theorem formatUnion_ok (fuel : Nat) (name : Str) (ms : List CUMember)
   obtain ⟨t2, hn2, htok2, hl2⟩ := hsrc1.step
   have hk2 : t2.nextTok.kind = .newline := by rw [htok2]
   obtain ⟨t', h3, hl3⟩ := membersFmt_ok (fuel + 1) ms fuel (kwUnion ++ [32] ++ name ++ [32, 123, 10]) r t2
-    (by omega) (by omega) hl2.src
+    htr (by omega) (by omega) hl2.src
   refine ⟨t', ?_, hl3⟩
   simp only [List.length_cons, List.length_nil, List.foldl_cons, List.foldl_nil] at h1
   simp only [formatUnion, htok, h1]
@@ -745,7 +775,8 @@ theorem defIterF_le (d : CDef) : defIterF d ≤ defLen d ∧ 1 ≤ defIterF d :=
 
 theorem sq_semi' : sq ";" = [59] := by decide
 
-theorem fmt_def (fuel f : Nat) (out : List Byte) (nl : Bool) (d : CDef) (hfu : defLen d ≤ fuel) {r : List Lexeme}
+theorem fmt_def (fuel f : Nat) (out : List Byte) (nl : Bool) (d : CDef) (hmv : d.noMovedComments) (hfu : defLen d ≤ fuel)
+    {r : List Lexeme}
     {t : TR} (h : Src (toks (defLex d r)) t) :
     ∃ t', Lex (toks r) t' ∧ formatLoop fuel (f + defIterF d) t out false nl =
       formatLoop fuel f t' (out ++ (if nl then [10] else []) ++ defText d) false (nlAfter d) := by
@@ -817,7 +848,7 @@ theorem fmt_def (fuel f : Nat) (out : List Byte) (nl : Bool) (d : CDef) (hfu : d
       intro out nl t h
       simp only [messageLex] at h
       obtain ⟨t1, hn, htok, hl⟩ := Src.step (tok := ⟨.kMessage, kwMessage⟩) h
-      obtain ⟨t2, h2, hl2⟩ := formatMessage_ok fuel [9] name gs hfs r t1 htok hl.src
+      obtain ⟨t2, h2, hl2⟩ := formatMessage_ok fuel [9] name gs hmv hfs r t1 htok hl.src
       obtain ⟨t3, hl3, h3⟩ := fmt_nl fuel f (out ++ (if nl then [10] else []) ++
             (kwMessage ++ [32] ++ name ++ [32, 123, 10] ++ msgFieldsText [9] gs)) true hl2.src
       refine ⟨t3, hl3, ?_⟩
@@ -880,7 +911,7 @@ theorem fmt_def (fuel f : Nat) (out : List Byte) (nl : Bool) (d : CDef) (hfu : d
             (kwUnion ++ [32] ++ name ++ [32, 123, 10] ++ membersText ms)) false true := by
       intro out nl t h
       obtain ⟨t1, hn, htok, hl⟩ := Src.step (tok := ⟨.kUnion, kwUnion⟩) h
-      obtain ⟨t2, h2, hl2⟩ := formatUnion_ok fuel name ms hfs r t1 htok hl.src
+      obtain ⟨t2, h2, hl2⟩ := formatUnion_ok fuel name ms hmv hfs r t1 htok hl.src
       obtain ⟨t3, hl3, h3⟩ := fmt_nl fuel f (out ++ (if nl then [10] else []) ++
             (kwUnion ++ [32] ++ name ++ [32, 123, 10] ++ membersText ms)) true hl2.src
       refine ⟨t3, hl3, ?_⟩
@@ -946,12 +977,12 @@ theorem top_doc_fmt (fuel : Nat) : ∀ (cs : List Str) (f : Nat) (out : List Byt
     simp [cmtText]
 
 theorem fmt_file_loop (fuel : Nat) : ∀ (ds : CFile) (nl : Bool) (out : List Byte) (f : Nat) (t : TR),
-    (∀ d ∈ ds, defLen d.d ≤ fuel) → (fileLex nl ds).length < f → Src (toks (fileLex nl ds)) t →
-    formatLoop fuel f t out false nl = some (out ++ fileText nl ds)
-  | [], nl, out, f, t, _, hf, h => by
+    (∀ d ∈ ds, d.d.noMovedComments) → (∀ d ∈ ds, defLen d.d ≤ fuel) → (fileLex nl ds).length < f →
+    Src (toks (fileLex nl ds)) t → formatLoop fuel f t out false nl = some (out ++ fileText nl ds)
+  | [], nl, out, f, t, _, _, hf, h => by
     obtain ⟨f, rfl⟩ : ∃ g, f = g + 1 := ⟨f - 1, by omega⟩
     rw [fmt_end fuel f out false nl h]; simp [fileText]
-  | d :: ds, nl, out, f, t, hfu, hf, h => by
+  | d :: ds, nl, out, f, t, hmv, hfu, hf, h => by
     have hlen := fileLex_len nl d ds
     have hit := defIterF_le d.d
     have hstep : ∃ t0 f0, Src (toks (docLex [] d.doc (defLex d.d (fileLex (nlAfter d.d) ds)))) t0 ∧
@@ -970,10 +1001,10 @@ theorem fmt_file_loop (fuel : Nat) : ∀ (ds : CFile) (nl : Bool) (out : List By
     obtain ⟨ta, hsrca, hea⟩ := top_doc_fmt fuel d.doc f1 out nl _ t0 hsrc0
     obtain ⟨f2, rfl⟩ : ∃ g, f1 = g + defIterF d.d := ⟨f1 - defIterF d.d, by omega⟩
     obtain ⟨t1, hl1, he1⟩ := fmt_def fuel f2 (out ++ cmtText [] d.doc) (nl && d.doc.isEmpty) d.d
-      (hfu d (List.mem_cons_self)) hsrca
+      (hmv d (List.mem_cons_self)) (hfu d (List.mem_cons_self)) hsrca
     have he' := fmt_file_loop fuel ds (nlAfter d.d)
       (out ++ cmtText [] d.doc ++ (if (nl && d.doc.isEmpty) then [10] else []) ++ defText d.d) f2 t1
-      (fun x hx => hfu x (List.mem_cons_of_mem _ hx)) (by omega) hl1.src
+      (fun x hx => hmv x (List.mem_cons_of_mem _ hx)) (fun x hx => hfu x (List.mem_cons_of_mem _ hx)) (by omega) hl1.src
     rw [he0, hea, he1, he']
     cases hsep : (nl && d.doc.isEmpty) with
     | false => simp [fileText, hsep]
@@ -986,11 +1017,11 @@ theorem fmt_file_loop (fuel : Nat) : ∀ (ds : CFile) (nl : Bool) (out : List By
 /-- Format emits the canonical text on every admissible layout of a well-formed schema. -/
 theorem format_schema (f : CFile) (hf : CFileOk f) (w : Nat → List Byte) (hw : LayoutOk w (fileLex false f)) :
     format (laidOutF w f) = some (canonTextF f) := by
-  have hlex := lex_schema f hf w hw (mkTR (laidOutF w f)) (mkTR_ok _) rfl
+  have hlex := lex_schema f hf.1 w hw (mkTR (laidOutF w f)) (mkTR_ok _) rfl
   have hlen : (fileLex false f).length ≤ (laidOutF w f).length :=
-    render_len w _ 0 (fileLex_wf f hf.1 false).lexsOk.toks
+    render_len w _ 0 (fileLex_wf f hf.1.1 false).lexsOk.toks
   have := fmt_file_loop (2 * (laidOutF w f).length + 4) f false [] (2 * (laidOutF w f).length + 4)
-    (mkTR (laidOutF w f)) (fun d hd => by have := defLen_mem false hd; omega) (by omega) hlex.src
+    (mkTR (laidOutF w f)) hf.2 (fun d hd => by have := defLen_mem false hd; omega) (by omega) hlex.src
   unfold format
   rw [this, canonTextF_eq_fileText]
   simp
